@@ -70,18 +70,22 @@ Section S.
   Proof.
     induction l as [|e r IH]; intros v H; simpl; auto.
     simpl in H. apply andb_true_iff in H. destruct H as [He Hr].
-    unfold apply_effects in *. simpl. rewrite IH by exact Hr. destruct e; try discriminate. reflexivity.
+    unfold apply_effects in *. simpl. rewrite IH by exact Hr. destruct e; try discriminate; reflexivity.
   Qed.
 
   (* rows of other tasks are not touched by the commits of task t *)
+  Definition owned_by (t : task) (e : effect) : Prop :=
+    match e with ECommit i _ _ | EPurge i _ => i = tid t | _ => False end.
+
   Lemma apply_commits_other (t : task) (l : list effect) : forall v t' k,
-    (forall e, In e l -> match e with ECommit i _ _ => i = tid t | _ => False end) ->
+    (forall e, In e l -> owned_by t e) ->
     t' <> tid t -> dblookup t' k (db (apply_effects v l)) = dblookup t' k (db v).
   Proof.
     induction l as [|e r IH]; intros v t' k H Hne; simpl; auto.
     unfold apply_effects in *. simpl. rewrite IH; auto.
-    - pose proof (H e (or_introl eq_refl)) as He. destruct e; try destruct He. simpl.
-      apply dblookup_dbupd_neq. intros C0. inversion C0. congruence.
+    - pose proof (H e (or_introl eq_refl)) as He. destruct e; simpl in He; try destruct He; simpl.
+      + apply dblookup_dbupd_neq. intros C0. inversion C0. congruence.
+      + apply dbpurge_other. exact Hne.
     - intros e' He'. apply H. right; exact He'.
   Qed.
 
@@ -97,9 +101,9 @@ Section S.
     destruct H as [H|H]; auto. right. eapply IH; eauto.
   Qed.
 
-  Lemma commit_effects_owner w t e : In e (commit_effects E w t) -> match e with ECommit i _ _ => i = tid t | _ => False end.
+  Lemma commit_effects_owner w t e : In e (commit_effects E w t) -> owned_by t e.
   Proof.
-    unfold commit_effects. intros H. apply in_flat_map in H. destruct H as [k [_ H]].
+    unfold commit_effects. intros [<-|H]; [reflexivity|]. apply in_flat_map in H. destruct H as [k [_ H]].
     destruct (state_of w t k); [|destruct H]. destruct H as [<-|[]]. reflexivity.
   Qed.
 
@@ -144,7 +148,7 @@ Section S.
       + rewrite firstn_all2 by lia. rewrite <- apply_effects_app, apply_write_effects, RB. cbn [fst].
         set (cs := firstn (m - length (write_effects body v t f)) (commit_effects E w1 t)).
         assert (CS : forallb is_commit cs = true) by (apply firstn_forallb; apply commit_effects_all_commits).
-        assert (OWN : forall e, In e cs -> match e with ECommit i _ _ => i = tid t | _ => False end).
+        assert (OWN : forall e, In e cs -> owned_by t e).
         { intros e He. apply (commit_effects_owner w1 t). eapply firstn_In'; eauto. }
         intros t' T' RM.
         destruct (N.eq_dec (tid t') (tid t)) as [e|ne].
